@@ -118,6 +118,15 @@ def texts(draw, enc, max_lines=6, nonempty=True):
 
         parts[idxs[min(i, len(idxs) - 1)]] = ch * k
 
+        if draw(st.booleans()):
+            # ... followed by a line that starts with a space
+            j = idxs.index(idxs[min(i, len(idxs) - 1)])
+
+            if j + 1 < len(idxs):
+                parts[idxs[j + 1]] = ' lead'
+            else:
+                parts.extend(['\n', ' lead'])
+
         if i == 0 and draw(st.booleans()):
             # long first line ending in CRLF
             parts = [('\r\n' if p_ in TERMS else p_) for p_ in parts]
@@ -225,6 +234,8 @@ def preamble_kwargs(draw, eff_parent):
 def meta_kwargs(draw, eff_parent):
     kw = {'metadata': draw(json_objects())}
     _put(kw, 'encoding', draw(enc_choice))
+    _put(kw, 'line_endings', draw(st.sampled_from(
+        [ABSENT, ABSENT, ABSENT, ABSENT, ABSENT, 'dos', 'unix'])))
     return kw
 
 
@@ -362,9 +373,20 @@ def program_features(program):
     return sorted(labels), nontrivial
 
 
+def _fresh(v):
+    """A string equal to v but a different object, like a value that was
+    parsed or computed at run time (never the interned literal)."""
+    if type(v) is str and v:
+        return ''.join([v[:1], v[1:]])
+
+    return v
+
+
 def call_writer(writer, op, kw):
     """Apply one program call to a DiffXWriter."""
-    kw = dict(kw)
+    kw = {k: (_fresh(v) if k in ('encoding', 'line_endings', 'mimetype',
+                                 'diff_type', 'meta_format') else v)
+          for k, v in kw.items()}
 
     if op == 'change':
         return writer.new_change(**kw)
